@@ -4,6 +4,7 @@ import PercevalModel.Model.C04Trim
 import PercevalModel.Model.C04Session
 import PercevalModel.Model.C04Generic
 import PercevalModel.Model.C04TrimDet
+import PercevalModel.Model.C04Split
 
 open Lean PM PM.Proto PM.Fock PM.Dist PM.SimSpec PM.SimProto PM.C04
 
@@ -290,14 +291,22 @@ def handle (j : Json) : Json :=
       let members ← membersOfJson (← j.getObjVal? "members")
       if members.any (fun p => p.2.any fun t => t.groups.any (·.length ≠ m)) then throw "bad group size"
       if members.any (fun p => p.2.isEmpty) then throw "member without term"
-      if members.any (fun p => p.2.any fun t => (t.groups.map List.sum).sum ≠ svN p.2) then
-        throw "terms with different photon numbers"
       let c ← cfgOfJson m (← j.getObjVal? "cfg")
-      let out := probsSvdGen U c (members.map fun (p : ℚ × List SimSpec.Term) => (⟨p.1, p.2⟩ : GMember))
-      let fullD := probsSVD U members
+      let gms := members.map fun (p : ℚ × List SimSpec.Term) => (⟨p.1, p.2⟩ : GMember)
+      -- members holding several photon numbers: `_preprocess_svd`'s split with the filter (`probsSvdGenS`), and next
+      -- to it the generic model on the mixture of the sectors (instance of `probsSvdGenS_eq_split`)
+      let multi := gms.any multiN
+      let ds ← detsOfJson m j "dets"
+      let pnrPath := allPnr ds
+      let c : Cfg := { c with pnr := pnrPath }
+      let out := if !pnrPath then probsSvdGenSDet U c ds gms
+                 else if multi then probsSvdGenS U c gms else probsSvdGen U c gms
+      let fullD := if ds.isEmpty then probsSVD U members else detect (ds.map Det.kern) (probsSVD U members)
       let sc := cond c
       return Json.mkObj [
         ("model", outToJson out),
+        ("sectors", if multi && pnrPath then outToJson (probsSvdGen U c (splitAll gms)) else Json.null),
+        ("sectorNs", toJson (gms.map fun (g : GMember) => PM.C03.photonCounts g.terms)),
         ("spec", Json.mkObj [("results", distToJson (conditioned sc fullD)),
                              ("phys", ratToJson (physPerf sc fullD)),
                              ("logical", ratToJson (logicalPerf sc fullD)),
